@@ -16,5 +16,8 @@ def main(root):
     assert R.sqrt(a) * R.sqrt(a) == a
     assert not (Rat(a + 1) == Rat(a))
     from ..domains import index as _index   # noqa: F401  (import check)
+    from . import interp_fixture
+    n = interp_fixture.main(db)
+    print('interpreter fixture: %d functions of the toy module evaluate to their stated values' % n)
     print('engine fixtures ok')
     return 0
